@@ -5,6 +5,7 @@ package interp
 // nondeterministic stubs.  Every stub that takes part in a run is recorded in the evidence.
 
 import (
+	"encoding/json"
 	"fmt"
 	"go/token"
 	"go/types"
@@ -437,6 +438,45 @@ func init() {
 		"fmt.Fprintln": func(fr *frame, a []value) value { return tuple{0, iface{}} },
 		"fmt.Println":  func(fr *frame, a []value) value { return tuple{0, iface{}} },
 		"fmt.Printf":   func(fr *frame, a []value) value { return tuple{0, iface{}} },
+
+		// ---- encoding/json: only the one use csvq's option parsing makes of it -------------
+		"encoding/json.Unmarshal": func(fr *frame, a []value) value {
+			// json.Unmarshal(concrete bytes, *[]int): delimiter positions of the fixed-length format
+			tgt, ok := a[1].(iface)
+			if !ok || !allConcrete(a[:1]) {
+				panic("unsupported: encoding/json.Unmarshal on symbolic data")
+			}
+			pt, ok := tgt.t.(*types.Pointer)
+			if !ok {
+				panic("unsupported: encoding/json.Unmarshal target " + tgt.t.String())
+			}
+			st, ok := pt.Elem().Underlying().(*types.Slice)
+			if !ok || !types.Identical(st.Elem(), types.Typ[types.Int]) {
+				panic("unsupported: encoding/json.Unmarshal target " + tgt.t.String())
+			}
+			used("encoding/json.Unmarshal into *[]int (native, concrete text)")
+			raw := a[0].([]value)
+			b := make([]byte, len(raw))
+			for i := range raw {
+				b[i] = raw[i].(uint8)
+			}
+			var out []int
+			err := json.Unmarshal(b, &out)
+			if err == nil {
+				cell := tgt.v.(*value)
+				logCell(cell)
+				if out == nil {
+					*cell = []value(nil)
+				} else {
+					vs := make([]value, len(out))
+					for i := range out {
+						vs[i] = out[i]
+					}
+					*cell = vs
+				}
+			}
+			return nativeErr(fr, err)
+		},
 
 		// ---- strconv / strings: native bridge when concrete, SSA otherwise ----------------
 		"strconv.ParseInt": func(fr *frame, a []value) value {
